@@ -13,7 +13,7 @@ PROPERTY = "C11"
 TRACE = "T_Buffer"
 ENUM = {
     "quick":    [dict(module="MC_Buffer", cfg="MC_Buffer_quick.cfg", workers=8)],
-    "thorough": [dict(module="MC_Buffer", cfg="MC_Buffer_thorough.cfg", workers=16, coverage=True)],
+    "thorough": [dict(module="MC_Buffer", cfg="MC_Buffer_thorough.cfg", workers=16)],
 }
 POOL = 12
 CHUNK = 250
